@@ -825,12 +825,12 @@ VARIANTS += [
     V('G-wl-03', 'E', ALL, SV, 'Server._gather_output', r'z = q_out\.get\(\)\n(\s+)if z is None:\n', r'if (z := q_out.get()) is None:\n'),
     V('G-wl-04', 'E', ALL, WK, 'Worker._start_single.get_input', r'z = q_in\.get\(\)\n(\s+)if z is None:\n', r'if (z := q_in.get()) is None:\n'),
     V('G-wl-05', 'E', ALL, SV, 'Server._gather_output.notify', r'z = q\.get\(\)\n(\s+)if z is None:\n', r'if (z := q.get()) is None:\n'),
-    V('G-wl-06', 'E', ALL, CX, 'SpawnProcess._run_logger', r'record = q\.get\(\)\n(\s+)if record is None:\n', r'if (record := q.get()) is None:\n'),
+    V('G-wl-06', 'E', ALL, CX, 'SpawnProcess._run_logger', r'ended = child_ended\.is_set\(\)\n(\s+)# Read the flag before looking at the queue\.\n', r'if (ended := child_ended.is_set()):\n\1    pass\n'),
     V('G-wl-07', 'E', ALL, SL, 'EnsembleServlet._dequeue', r'z = catalog\.get\(uid\)\n(\s+)if z is None:\n', r'if (z := catalog.get(uid)) is None:\n'),
 ]
 
 VARIANTS += [
-    V('C20-M24', 'M', ('C20',), CX, 'SpawnProcess.start', r'\n\s+self\._logger_queue_\.put\(_LOGGER_QUEUE_WARMUP\)', '', ('C20-5',), note='D18 shape: the end marker is the first put on the log queue'),
+    V('C20-M24', 'M', ('C20',), CX, 'SpawnProcess._close_logger', r'self\._child_ended_\.set\(\)', 'self._logger_queue_.put(None)', ('C20-5',), note='D18 shape: the end marker is the first put on the log queue'),
 ]
 
 # ---------------------------------------------------------------------- rules added after the third round (second half) and the fourth
@@ -1075,4 +1075,20 @@ VARIANTS += [
     V('C18-M30', 'M', ('C18',), SO, 'write_record', r"(\n    )data_bytes = encode\(data, encoder\)", r"\1if isinstance(data, bytes):\1    encoder = 'none'\1data_bytes = encode(data, encoder)", ('C18-12',), note='seeded C18-r4m2 shape'),
     V('C18-M31', 'M', ('C18',), SO, 'SocketClient.stream', r"(\n(\s+))y = fut\.result\(timeout=response_timeout - \(perf_counter\(\) - t0\)\)", r"\1if perf_counter() - t0 > response_timeout:\1    raise TimeoutError\1y = fut.result(timeout=response_timeout - (perf_counter() - t0))", ('C18-13',), note='seeded C18-r4m1 shape'),
     V('C18-E30', 'E', ALL, SO, 'SocketClient.stream', r"y = fut\.result\(timeout=response_timeout - \(perf_counter\(\) - t0\)\)", r"remaining = response_timeout - (perf_counter() - t0)\n                y = fut.result(timeout=remaining)", note='remaining time bound to a local'),
+]
+
+QM = 'queue.py'
+VARIANTS += [
+    V('C17-M30', 'M', ('C17',), QM, 'IterableQueue.__init__', r"if isinstance\(q, \(queue\.Queue, queue\.SimpleQueue\)\):", "if not isinstance(q, (multiprocessing.Queue, multiprocessing.SimpleQueue)):", ('C17-7',), note='seeded C17-r4m1 shape'),
+    V('C17-E30', 'E', ALL, QM, 'IterableQueue.__init__', r"if isinstance\(q, \(queue\.Queue, queue\.SimpleQueue\)\):(.*?)\n        else:\n(.*?)(\n        # `_lids_lock` makes)", lambda m: "if not isinstance(q, (queue.Queue, queue.SimpleQueue)):" + "\n" + m.group(2) + "\n        else:" + m.group(1) + m.group(3), note='arms swapped under not'),
+]
+
+VARIANTS += [
+    V('C20-M30', 'M', ('C20',), CX, 'SpawnProcess.start', r"(\n        )self\._logger_thread_\.start\(\)\n", r"\1self._logger_thread_.start()\1self._logger_queue_.put('warm-up')\n", ('C20-6',), note='the regression of ad9cd7f: a put by the parent while the child is alive (nested processes hang)'),
+    V('C20-M31', 'M', ('C20',), CX, 'SpawnProcess._run_logger', r"if ended:", "if child_ended.is_set():", ('C20-1',), note='flag read after the look at the queue'),
+    V('C20-M32', 'M', ('C20',), CX, 'SpawnProcess._run_logger', r"record = q\.get\(timeout=0\.1\)", "record = q.get()", ('C20-1',), note='untimed wait: the flag is never looked at'),
+    V('C20-M33', 'M', ('C20',), CX, 'SpawnProcess._close_logger', r"(\n        )multiprocessing\.connection\.wait\(\[sentinel\]\)\n\s+self\._child_ended_\.set\(\)", r"\1self._child_ended_.set()\1multiprocessing.connection.wait([sentinel])", ('C20-1',), note='flag set before the child was observed dead'),
+    V('C20-M34', 'M', ('C20',), CX, 'SpawnProcess._run_logger', r"(\n(\s+))ended = child_ended\.is_set\(\)\n", r"\1if child_ended.is_set():\1    break\1ended = False\n", ('C20-1',), note='reader stops on the flag without an empty look at the queue'),
+    V('C20-E30', 'E', ALL, CX, 'SpawnProcess._run_logger', r"record = q\.get\(timeout=0\.1\)", "record = q.get(True, 0.2)", note='positional timeout'),
+    V('C20-E31', 'E', ALL, CX, 'SpawnProcess._run_logger', r"if ended:\n(.*?)break\n(\s+)continue\n", r"if not ended:\n\2    continue\n\2break\n", note='handler arms swapped'),
 ]
